@@ -417,6 +417,7 @@ def fam_bind(r, idx, sweep=None, pc_only=False):
     ngroups = r.choice([1, 1, 2, 2, 3, 4, 5, 8])
     if pc_only:
         ngroups = 0  # the push constant is the only module-scope variable
+    no_entries = pc_only == "noentry"
     sweep = list(sweep or [])
     decls = []
     for gi in range(ngroups):
@@ -452,8 +453,9 @@ def fam_bind(r, idx, sweep=None, pc_only=False):
     if r.random() < 0.2 and ngroups:
         spec.globals.append(Global(namer.fresh("pv"), "private", ty=r.choice(
             [W.S("f32"), W.V(4, "f32"), W.S("bool")])))
-    stages = r.choice([["fragment", "vertex"], ["vertex", "fragment"], ["compute", "fragment"],
-                       ["vertex", "fragment", "compute"]]) if not ngroups else \
+    stages = [] if no_entries else r.choice(
+        [["fragment", "vertex"], ["vertex", "fragment"], ["compute", "fragment"],
+         ["vertex", "fragment", "compute"]]) if not ngroups else \
         r.choice([[]] if r.random() < 0.04 else
                       [["vertex"], ["fragment"], ["compute"], ["vertex", "fragment"],
                        ["vertex", "fragment"], ["vertex", "fragment", "compute"],
@@ -470,7 +472,7 @@ def fam_bind(r, idx, sweep=None, pc_only=False):
                             "accesses_per_global": (1, 2)} if ngroups == 0 else {}))
     spec.families.append("graph:" + shape)
     pcs = [g for g in spec.globals if g.kind == "push"]
-    if pc_only and pcs and r.random() < 0.7:
+    if pc_only and pcs and not no_entries and r.random() < 0.7:
         # every variable of the module is already known to a stage when a second entry point
         # of that stage comes along; an entry point of ANOTHER stage follows and uses it too
         sa, sb = r.sample(["vertex", "fragment", "compute"], 2)
@@ -500,6 +502,12 @@ def fam_bind(r, idx, sweep=None, pc_only=False):
         aux = Func(namer.fresh("fn_aux_"), False)  # touches nothing
         spec.funcs.append(aux)
         pat = r.random()
+        if pat < 0.55:
+            # in the directed patterns the leaf helper is the ONLY reader of the push constant
+            for h_ in spec.funcs + spec.entries:
+                if h_ is not h:
+                    h_.actions = [a for a in h_.actions if not (
+                        a.what == "access" and pcs[0].name in (a.glob or []))]
         by_stage = {}
         for e in spec.entries:
             by_stage.setdefault(e.stage, []).append(e)
@@ -542,11 +550,22 @@ def fam_bind(r, idx, sweep=None, pc_only=False):
             spec.entries[-1].actions = []
     if r.random() < 0.15:
         saturating_entries(r, spec, namer, stages)
+    if ngroups and len(set(stages)) == 1 and spec.entries and r.random() < 0.5:
+        single_stage_saturation(r, spec, namer, stages[0])
     if r.random() < 0.15 and ngroups and spec.entries:
         interleaved_entries(r, spec, namer)
     finish_entries(r, spec, namer)
     if r.random() < 0.07:
         alias_binding(r, spec, namer)
+    elif ngroups >= 2 and r.random() < 0.05:
+        # a gap in the group numbering (the last group moves up by one): must be refused,
+        # with or without validation
+        top = max(g.group for g in spec.globals if g.is_resource())
+        for g in spec.globals:
+            if g.is_resource() and g.group == top:
+                g.group = top + 1
+        spec.expect_decline = "NonConsecutiveBindGroups"
+        spec.must_decline = True
     spec.decl_order = r.choice(["default", "default", "functions_first", "entries_first"])
     return spec
 
@@ -611,6 +630,49 @@ def interleaved_entries(r, spec, namer):
             e.actions.append(Action("call", r.choice(S_SITES), callee=h.name, expr=None,
                                     stmt="%s();" % h.name))
         spec.entries.append(e)
+
+
+def single_stage_saturation(r, spec, namer, stage):
+    """a module with ONE stage: the first entry point touches some resources plus exactly as
+    many non-resource variables as there are resources it does not touch; a later entry point
+    of the same stage uses the rest (counting variables says nothing about which ones)"""
+    res = [g for g in spec.globals if g.is_resource()]
+    if len(res) < 2:
+        return
+    m = r.randint(1, min(2, len(res) - 1))
+    rest = r.sample([g for g in res if g.kind == "buffer"] or res, 1)
+    rest += r.sample([g for g in res if g not in rest], m - 1)
+    pvs = []
+    for k in range(m):
+        pv = Global(namer.fresh("pv_one"), "private", ty=W.S("f32"))
+        spec.globals.insert(r.randint(0, len(spec.globals)), pv)
+        pvs.append(pv)
+    pre = {"vertex": "vs_", "fragment": "fs_", "compute": "cs_"}[stage]
+    e1, e2 = Entry(namer.fresh(pre), stage), Entry(namer.fresh(pre), stage)
+
+    def touch(e, g, avoid):
+        acc = [a for a in possible_accesses(spec, g, r)
+               if not any(x.name in a[0] for x in avoid if x is not g)]
+        if not acc:
+            return
+        globs, form, ex, stm = acc[0]
+        e.actions.append(Action("access", "top", glob=globs, form=form, expr=ex,
+                                stmt=stm if ex is None else None))
+    for g in res:
+        if g not in rest:
+            touch(e1, g, rest)
+    for pv in pvs:
+        touch(e1, pv, rest)
+    for g in rest:
+        touch(e2, g, [])
+    if not e2.actions:
+        return
+    # these two come FIRST, every older entry point after them: nothing has been seen before
+    # the first one, and the rest of the module must not hide what the second one loses
+    for h_ in spec.funcs + spec.entries:
+        h_.actions = [a for a in h_.actions if not (a.what == "access" and any(
+            x.name in (a.glob or []) for x in rest))]
+    spec.entries = [e1, e2] + spec.entries
 
 
 def saturating_entries(r, spec, namer, stages):
@@ -1080,6 +1142,20 @@ def role_structs(r, spec, namer):
         spec.overrides.append({"name": on, "ty": "u32", "id": None, "default": "8u"})
         spec.globals.append(Global(namer.fresh("wg"), "workgroup", ty=W.A(W.ST(tile), 8),
                                    len_override=on))
+    if r.random() < 0.4:
+        # ordinary helper functions that take and RETURN an entry-parameter struct (only what
+        # ENTRY POINTS return is a stage output)
+        for s_ in [vin] + ([vin2] if vin2 else []) + ([fin] if fin else []):
+            if r.random() < 0.6:
+                spec.extra_decls.append("fn pass_%s(v: %s) -> %s { return v; }" % (s_, s_, s_))
+    if r.random() < 0.3:
+        # a module-scope constant of struct type: constants are not variables, the struct is
+        # not filled by the host
+        cs = namer.fresh("ConstOnly")
+        cs = cs[0].upper() + cs[1:]
+        spec.structs[cs] = W.StructDef(cs, [{"name": "dir", "ty": W.V(3, "f32")},
+                                            {"name": "power", "ty": W.S("f32")}])
+        spec.extra_decls.append("const SUN_%s = %s(vec3<f32>(0.0, -1.0, 0.0), 2.0);" % (cs, cs))
     spec.funcs = []
     if r.random() < 0.5:
         r.shuffle(ents)  # e.g. the consumer of an inter-stage struct before its producer
@@ -1315,6 +1391,10 @@ def fam_entry(r, idx):
     # a little state so entries can touch something
     spec.globals.append(Global(namer.fresh("g"), "buffer", space="storage", access="read_write",
                                ty=W.A(W.S("f32"), 4), group=0, binding=0))
+    for s_ in shared_pool:
+        if r.random() < 0.25:
+            # an ordinary helper that takes and returns the vertex input struct
+            spec.extra_decls.append("fn mirrored_%s(v: %s) -> %s { return v; }" % (s_, s_, s_))
     shareable = [s for s in shared_pool
                  if not W.contains_kind(W.ST(s), spec.structs, ("f64",)) and
                  not any(m.get("builtin") for m in spec.structs[s].members)]
@@ -1511,6 +1591,8 @@ def fam_const(r, idx):
         spec.header.append("/* " + "😀变" * 9000 + " */")
     spec.line_ending = r.choice(["\n", "\n", "\r\n", "\n"])
     spec.consts_one_line = r.random() < 0.2
+    spec.no_final_newline = r.random() < 0.25
+    spec.final_comment = r.random() < 0.4
     spec.entries = [Entry(namer.fresh("cs_"), "compute")]
     spec.entries[0].workgroup_size = [1]
     spec.entries[0].workgroup_expected = [1, 1, 1]
@@ -1646,6 +1728,22 @@ def directed_struct_specs():
     s.globals.append(Global("ba", "private", ty=W.A(W.ST("BaElem"), 2),
                             decl_text="var<storage> ba: binding_array<BaElem, 2>;"))
     _compute_entry(s)
+    # members named like padding; an entry input with a builtin member that is also buffer data
+    s = new("underscore-members")
+    st(s, "Padded", [("scale", W.S("f32"), None), ("_reserved", W.S("f32"), None),
+                     ("bias", W.S("f32"), None), ("_extra", W.V(2, "u32"), None),
+                     ("m", W.M(4, 4), None), ("_tail", W.S("u32"), None)])
+    _storage(s, "padded", W.ST("Padded"), 0)
+    _compute_entry(s)
+    s = new("input-builtin-host")
+    st(s, "Inst", [("offset", W.V(4, "f32"), {"location": 0}),
+                   ("vi", W.S("u32"), {"builtin": "vertex_index"}),
+                   ("tint", W.V(4, "f32"), {"location": 1})])
+    _storage(s, "instances", W.A(W.ST("Inst"), 4), 0, access="read")
+    e = Entry("vs_inst", "vertex")
+    e.params = [{"name": "i", "struct": "Inst"}]
+    e.result = {"kind": "position"}
+    s.entries.append(e)
     # vec3 packing
     s = new("vec3")
     st(s, "Vec3ThenScalar", [("a", W.V(3, "f32"), None), ("b", W.S("f32"), None),
@@ -1661,6 +1759,8 @@ def directed_struct_specs():
     st(s, "RtVec3", [("count", W.S("u32"), None), ("items", W.A(W.V(3, "f32"), None), None)])
     st(s, "RtStruct", [("count", W.V(4, "u32"), None), ("items", W.A(W.ST("Elem"), None), None)])
     st(s, "RtMat", [("items", W.A(W.M(3, 3), None), None)])
+    st(s, "AfterRt", [("a", W.V(4, "f32"), None), ("b", W.S("u32"), None)])
+    _storage(s, "after", W.ST("AfterRt"), 4)
     st(s, "RtFixed", [("bounds", W.A(W.V(4, "f32"), 2), None),
                       ("grid", W.A(W.A(W.S("f32"), 2), 3), None),
                       ("cells", W.A(W.ST("Elem"), 2), None),
@@ -1681,6 +1781,7 @@ def directed_struct_specs():
     # arrays beyond serde's 32-element impls, under every derive switch set
     s = new("big-arrays")
     s.matrix = True
+    s.force_opts = {"se": True}
     st(s, "BigInner", [("c", W.A(W.S("u32"), 64), None)])
     st(s, "BigArr", [("a", W.A(W.S("f32"), 33), None), ("b", W.A(W.V(4, "f32"), 40), None),
                      ("inner", W.ST("BigInner"), None), ("n", W.A(W.A(W.S("f32"), 36), 2), None)])
